@@ -198,6 +198,7 @@ Proof.
 Qed.
 
 Lemma parity_rows_spec fuel rows k : rows_ok k rows -> N.of_nat (length rows) <= 65536 ->
+  (Z.of_nat k <= MAXALLOC)%Z ->
   forall cnt y,
   parity_rows fuel cnt (Z.of_N y) rows (Z.of_nat k) =
   match spec_parity_lines fuel cnt y (N.of_nat (length rows)) with
@@ -205,9 +206,9 @@ Lemma parity_rows_spec fuel rows k : rows_ok k rows -> N.of_nat (length rows) <=
   | None => OutOfFuel
   end.
 Proof.
-  intros Hr Hl. induction cnt as [|cnt IH]; intros y; [reflexivity|].
+  intros Hr Hl Hk. induction cnt as [|cnt IH]; intros y; [reflexivity|].
   cbn [parity_rows spec_parity_lines].
-  replace (Z.of_nat k <? 0)%Z with false by lia.
+  replace (Z.of_nat k <? 0)%Z with false by lia. replace (MAXALLOC <? Z.of_nat k)%Z with false by lia. cbn [orb].
   replace (Z.of_N y + 1)%Z with (Z.of_N (y + 1)) by lia.
   replace (Z.of_nat (length rows)) with (Z.of_N (N.of_nat (length rows))) by lia.
   rewrite matrix_line_spec by lia.
@@ -236,22 +237,28 @@ Proof.
 Qed.
 
 Definition valid (data : list N) (size : Z) : Prop :=
-  (0 < size)%Z /\ Z.rem (Z.of_nat (length data)) size = 0%Z.
+  (0 < size)%Z /\ (0 < length data)%nat /\ Z.rem (Z.of_nat (length data)) size = 0%Z.
+
+(* a Go byte slice is never longer than the runtime's allocation limit *)
+Definition fits (data : list N) : Prop := (Z.of_nat (length data) <= MAXALLOC)%Z.
 
 Lemma valid_nat data size : valid data size ->
   let k := Z.to_nat size in
   (0 < k)%nat /\ size = Z.of_nat k /\ length data = (length data / k * k)%nat
-  /\ Z.quot (Z.of_nat (length data)) size = Z.of_nat (length data / k).
+  /\ Z.quot (Z.of_nat (length data)) size = Z.of_nat (length data / k)
+  /\ (k <= length data)%nat.
 Proof.
-  intros [Hs Hr] k. assert (Hk : size = Z.of_nat k) by (unfold k; lia).
+  intros (Hs & Hpos & Hr) k. assert (Hk : size = Z.of_nat k) by (unfold k; lia).
   split; [lia|]. split; [exact Hk|].
   rewrite Hk in *. rewrite Z.rem_mod_nonneg in Hr by lia. rewrite Z.quot_div_nonneg by lia.
   rewrite <- Nat2Z.inj_mod in Hr. rewrite <- Nat2Z.inj_div.
-  split; [|reflexivity].
-  pose proof (Nat.div_mod_eq (length data) k). lia.
+  pose proof (Nat.div_mod_eq (length data) k).
+  assert (Hd : length data = (length data / k * k)%nat) by lia.
+  split; [exact Hd|]. split; [reflexivity|].
+  destruct (length data / k)%nat; lia.
 Qed.
 
-Theorem encode_spec fuel data size red : valid data size ->
+Theorem encode_spec fuel data size red : valid data size -> fits data ->
   N.of_nat (length data / Z.to_nat size) <= 65536 ->
   encode_with fuel data size red =
   match spec_encode fuel data (Z.to_nat size) (Z.to_nat red) with
@@ -259,14 +266,15 @@ Theorem encode_spec fuel data size red : valid data size ->
   | None => OutOfFuel
   end.
 Proof.
-  intros Hv Hn. destruct (valid_nat data size Hv) as (Hk & Hsz & Hd & Hq).
-  destruct Hv as [Hs Hr]. unfold encode_with.
+  intros Hv Hfit Hn. destruct (valid_nat data size Hv) as (Hk & Hsz & Hd & Hq & Hle).
+  destruct Hv as (Hs & Hpos & Hr). unfold encode_with. unfold fits in Hfit.
   remember (Z.to_nat size) as k eqn:Ek. clear Ek. subst size.
   replace (Z.of_nat k <=? 0)%Z with false by lia. replace (Z.of_nat k =? 0)%Z with false by lia.
+  replace (Z.of_nat (length data) =? 0)%Z with false by lia.
   rewrite Hr. cbn [Z.eqb negb]. rewrite Hq, !Nat2Z.id.
   rewrite data_rows_chunks by exact Hd. cbn [bind].
   change 0%Z with (Z.of_N 0).
-  rewrite parity_rows_spec; [|now apply chunks_ok|now rewrite chunks_length].
+  rewrite parity_rows_spec; [|now apply chunks_ok|now rewrite chunks_length|lia].
   rewrite chunks_length, spec_encode_unfold by assumption.
   destruct (spec_parity_lines fuel (Z.to_nat red) 0 (N.of_nat (length data / k))); reflexivity.
 Qed.
@@ -277,13 +285,14 @@ Theorem encode_invalid fuel data size red : ~ valid data size ->
 Proof.
   intros Hn. unfold encode_with, valid in *.
   destruct (size <=? 0)%Z eqn:E1; [reflexivity|].
+  destruct (Z.of_nat (length data) =? 0)%Z eqn:E0; [reflexivity|].
   replace (size =? 0)%Z with false by lia.
   destruct (Z.rem (Z.of_nat (length data)) size =? 0)%Z eqn:E2; [|reflexivity].
   exfalso. apply Hn. split; lia.
 Qed.
 
 (* ---- systematic prefix and parity rows, stated on the fragments ---------------------- *)
-Theorem encode_systematic fuel data size red frags : valid data size ->
+Theorem encode_systematic fuel data size red frags : valid data size -> fits data ->
   N.of_nat (length data / Z.to_nat size) <= 65536 ->
   encode_with fuel data size red = Ok frags ->
   let k := Z.to_nat size in
@@ -295,7 +304,7 @@ Theorem encode_systematic fuel data size red frags : valid data size ->
     /\ firstn n frags = chunks n k data
     /\ concat (firstn n frags) = data.
 Proof.
-  intros Hv Hn He k n. destruct (valid_nat data size Hv) as (Hk & Hsz & Hd & Hq).
+  intros Hv Hfit Hn He k n. destruct (valid_nat data size Hv) as (Hk & Hsz & Hd & Hq & _).
   rewrite encode_spec in He by assumption.
   fold k in Hk, Hd, He. rewrite spec_encode_unfold in He by assumption. fold n in He.
   destruct (spec_parity_lines fuel (Z.to_nat red) 0 (N.of_nat n)) as [ls|] eqn:El; [|discriminate].
@@ -313,30 +322,32 @@ Proof.
 Qed.
 
 (* ---- generator form, linearity, recovery ----------------------------------------------- *)
-Lemma encode_generator fuel data size red frags : valid data size ->
+Lemma encode_generator fuel data size red frags : valid data size -> fits data ->
   N.of_nat (length data / Z.to_nat size) <= 65536 ->
   encode_with fuel data size red = Ok frags ->
   exists G, spec_generator fuel (length data / Z.to_nat size) (Z.to_nat red) = Some G
     /\ frags = mat_apply (Z.to_nat size) G (chunks (length data / Z.to_nat size) (Z.to_nat size) data).
 Proof.
-  intros Hv Hn He. rewrite encode_spec in He by assumption. unfold spec_encode in He.
+  intros Hv Hfit Hn He. rewrite encode_spec in He by assumption. unfold spec_encode in He.
   destruct (spec_generator fuel (length data / Z.to_nat size) (Z.to_nat red)) as [G|]; [|discriminate].
   exists G. split; [reflexivity|]. now inversion He.
 Qed.
 
 Theorem encode_linear fuel d1 d2 size red fr1 fr2 :
-  length d1 = length d2 -> valid d1 size -> N.of_nat (length d1 / Z.to_nat size) <= 65536 ->
+  length d1 = length d2 -> valid d1 size -> fits d1 -> N.of_nat (length d1 / Z.to_nat size) <= 65536 ->
   encode_with fuel d1 size red = Ok fr1 -> encode_with fuel d2 size red = Ok fr2 ->
   encode_with fuel (xor_bytes d1 d2) size red = Ok (xor_rows fr1 fr2).
 Proof.
-  intros Hl Hv Hn E1 E2.
+  intros Hl Hv Hfit Hn E1 E2.
   assert (Hv2 : valid d2 size) by (unfold valid in *; now rewrite <- Hl).
+  assert (Hfit2 : fits d2) by (unfold fits in *; now rewrite <- Hl).
   assert (Hlx : length (xor_bytes d1 d2) = length d1) by (rewrite xor_bytes_length; lia).
   assert (Hvx : valid (xor_bytes d1 d2) size) by (unfold valid in *; now rewrite Hlx).
-  destruct (valid_nat d1 size Hv) as (Hk & Hsz & Hd & Hq).
-  destruct (encode_generator _ _ _ _ _ Hv Hn E1) as (G & HG & ->).
+  assert (Hfitx : fits (xor_bytes d1 d2)) by (unfold fits in *; now rewrite Hlx).
+  destruct (valid_nat d1 size Hv) as (Hk & Hsz & Hd & Hq & _).
+  destruct (encode_generator _ _ _ _ _ Hv Hfit Hn E1) as (G & HG & ->).
   assert (Hn2 : N.of_nat (length d2 / Z.to_nat size) <= 65536) by now rewrite <- Hl.
-  destruct (encode_generator _ _ _ _ _ Hv2 Hn2 E2) as (G2 & HG2 & ->).
+  destruct (encode_generator _ _ _ _ _ Hv2 Hfit2 Hn2 E2) as (G2 & HG2 & ->).
   rewrite <- Hl in HG2. rewrite HG in HG2. inversion HG2; subst G2.
   rewrite encode_spec by (auto; now rewrite Hlx). unfold spec_encode. rewrite Hlx, HG.
   f_equal. rewrite chunks_xor. rewrite <- Hl.
@@ -375,7 +386,7 @@ Qed.
 (* any subset of the fragments whose generator rows have a left inverse over GF(2)
    (i.e. full rank) determines the block: the inverse applied to the received
    fragments is the list of uncoded fragments *)
-Theorem encode_recover fuel data size red frags G kept T : valid data size ->
+Theorem encode_recover fuel data size red frags G kept T : valid data size -> fits data ->
   N.of_nat (length data / Z.to_nat size) <= 65536 ->
   encode_with fuel data size red = Ok frags ->
   let k := Z.to_nat size in
@@ -386,9 +397,9 @@ Theorem encode_recover fuel data size red frags G kept T : valid data size ->
   mat_apply k T (select kept frags []) = chunks n k data
   /\ concat (mat_apply k T (select kept frags [])) = data.
 Proof.
-  intros Hv Hn He k n HG Hkept HT.
-  destruct (valid_nat data size Hv) as (Hk & Hsz & Hd & Hq). fold k in Hk, Hd.
-  destruct (encode_generator _ _ _ _ _ Hv Hn He) as (G' & HG' & Hfr).
+  intros Hv Hfit Hn He k n HG Hkept HT.
+  destruct (valid_nat data size Hv) as (Hk & Hsz & Hd & Hq & _). fold k in Hk, Hd.
+  destruct (encode_generator _ _ _ _ _ Hv Hfit Hn He) as (G' & HG' & Hfr).
   fold k n in HG', Hfr. rewrite HG in HG'. inversion HG'; subst G'. clear HG'.
   destruct (spec_generator_shape _ _ _ _ HG) as [LG FG].
   assert (Hrows : rows_ok k (chunks n k data)) by now apply chunks_ok.
@@ -502,12 +513,12 @@ Qed.
 
 (* Encode returns fragments - it neither fails nor loops - for every valid input in
    the property's range: at most 300 fragments, redundancy at most 100 *)
-Theorem encode_terminates data size red : valid data size ->
+Theorem encode_terminates data size red : valid data size -> fits data ->
   N.of_nat (length data / Z.to_nat size) <= 300 -> (red <= 100)%Z ->
   exists frags, encode data size red = Ok frags.
 Proof.
-  intros Hv Hn Hr. unfold encode. rewrite encode_spec by (auto; lia).
-  destruct (valid_nat data size Hv) as (Hk & Hsz & Hd & Hq).
+  intros Hv Hfit Hn Hr. unfold encode. rewrite encode_spec by (auto; lia).
+  destruct (valid_nat data size Hv) as (Hk & Hsz & Hd & Hq & _).
   rewrite spec_encode_unfold by assumption.
   pose proof (parity_lines_terminate FUEL (N.of_nat (length data / Z.to_nat size)) (Z.to_nat red) 0) as Hp.
   destruct (spec_parity_lines FUEL (Z.to_nat red) 0 (N.of_nat (length data / Z.to_nat size))) as [ls|].
@@ -517,13 +528,13 @@ Proof.
 Qed.
 
 (* and for counts that are not powers of two, with no bound on count (below 65536) or redundancy *)
-Theorem encode_terminates_not_pow2 data size red : valid data size ->
+Theorem encode_terminates_not_pow2 data size red : valid data size -> fits data ->
   N.of_nat (length data / Z.to_nat size) <= 65536 ->
   spec_pow2 (N.of_nat (length data / Z.to_nat size)) = false ->
   exists frags, encode data size red = Ok frags.
 Proof.
-  intros Hv Hn Hp2. unfold encode. rewrite encode_spec by auto.
-  destruct (valid_nat data size Hv) as (Hk & Hsz & Hd & Hq).
+  intros Hv Hfit Hn Hp2. unfold encode. rewrite encode_spec by auto.
+  destruct (valid_nat data size Hv) as (Hk & Hsz & Hd & Hq & _).
   rewrite spec_encode_unfold by assumption.
   pose proof (parity_lines_terminate FUEL (N.of_nat (length data / Z.to_nat size)) (Z.to_nat red) 0) as Hp.
   destruct (spec_parity_lines FUEL (Z.to_nat red) 0 (N.of_nat (length data / Z.to_nat size))) as [ls|].
@@ -576,27 +587,35 @@ Proof.
   - rewrite repeat_length. lia.
 Qed.
 
-Lemma parity_rows_no_panic fuel rows size : (0 <= size)%Z -> forall cnt y, (0 <= y)%Z ->
+Lemma parity_rows_no_panic fuel rows size : (0 <= size <= MAXALLOC)%Z -> forall cnt y, (0 <= y)%Z ->
   parity_rows fuel cnt y rows size <> Panic.
 Proof.
   intros Hs. induction cnt as [|cnt IH]; intros y Hy; cbn [parity_rows]; [discriminate|].
-  replace (size <? 0)%Z with false by lia.
+  replace (size <? 0)%Z with false by lia. replace (MAXALLOC <? size)%Z with false by lia. cbn [orb].
   pose proof (matrix_line_no_panic fuel (y + 1) (Z.of_nat (length rows)) ltac:(lia) ltac:(lia)) as Hm.
   destruct (matrix_line fuel (y + 1) (Z.of_nat (length rows))); cbn [bind]; try discriminate; [|congruence].
   specialize (IH (y + 1)%Z ltac:(lia)).
   destruct (parity_rows fuel cnt (y + 1) rows size); cbn [bind]; try discriminate. congruence.
 Qed.
 
-Theorem encode_no_panic fuel data size red : encode_with fuel data size red <> Panic.
+(* for every block a Go program can hold (fits), every size and every redundancy *)
+Theorem encode_no_panic fuel data size red : fits data -> encode_with fuel data size red <> Panic.
 Proof.
-  unfold encode_with.
+  intros Hfit. unfold encode_with. unfold fits in Hfit.
   destruct (size <=? 0)%Z eqn:E1; [discriminate|].
+  destruct (Z.of_nat (length data) =? 0)%Z eqn:E0; [discriminate|].
   replace (size =? 0)%Z with false by lia.
   destruct (Z.rem (Z.of_nat (length data)) size =? 0)%Z eqn:E2; cbn [negb]; [|discriminate].
   assert (Hv : valid data size) by (unfold valid; lia).
-  destruct (valid_nat data size Hv) as (Hk & Hsz & Hd & Hq).
+  destruct (valid_nat data size Hv) as (Hk & Hsz & Hd & Hq & Hle).
   rewrite Hq, Nat2Z.id, data_rows_chunks by exact Hd. cbn [bind].
   pose proof (parity_rows_no_panic fuel (chunks (length data / Z.to_nat size) (Z.to_nat size) data) size
                 ltac:(lia) (Z.to_nat red) 0%Z ltac:(lia)) as Hp.
   destruct (parity_rows _ _ _ _ _); cbn [bind]; try discriminate. congruence.
 Qed.
+
+(* before fix 10583ce the empty block passed the divisibility test for every positive size and the
+   size reached make() unchecked: with the refusal removed from the model, the audit's input panics *)
+Example empty_block_huge_size_would_panic :
+  parity_rows FUEL 1 0 [] (2 ^ 63 - 1) = Panic.
+Proof. reflexivity. Qed.
